@@ -130,6 +130,44 @@ Definition run_fallback (fixed : bool) (x : sx) : sx :=
   | _ => err "bad fallback case"
   end.
 
+(* ---- leg request: ( FIRST SECOND ), FIRST = ( CLASS DT ST FS RAN SRC ), SECOND = () | the same six fields for the hit ---- *)
+Definition dt_sym (dt : dist_type) : sx :=
+  sym (match dt with NoDist => "nodist" | DistOk => "dist_ok" | DistError => "dist_error" end).
+
+Definition run_request (fixed : bool) (x : sx) : sx :=
+  match x with
+  | SL [g; d; prep; put; al; sub; rn; rw; lc; SL pre] =>
+      let s := {| s_gen := get_bool g; s_dist := get_bool d; s_prep := dec_oclass prep; s_put := dec_oclass put;
+                  s_alloc := dec_alloc al; s_submit := dec_submit sub; s_run := dec_run rn;
+                  s_rewrite := dec_oclass rw; s_local := dec_local lc |} in
+      let f0 := fold_left (fun f p => fs_write (get_N p) CPre f) pre [] in
+      let r := dist_or_local fixed s f0 in
+      match enc_result r with
+      | SL [_; _; st; fsx; ran; src] =>
+          let '(cls, dt) :=
+            match request_class 0 r with
+            | QMiss dt => (sym "miss", dt_sym dt)
+            | QCompileFailed dt => (sym "compile_failed", dt_sym dt)
+            | QProcErr => (sym "proc_err", sym "none")
+            | QErr KHttp => (sym "err_http", sym "none")
+            | QErr KTooLarge => (sym "err_toolarge", sym "none")
+            | QErr KGen => (sym "err_gen", sym "none")
+            | QErr KSpawn => (sym "err_spawn", sym "none")
+            | QErrZip => (sym "err_zip", sym "none")
+            | QPanic => (sym "panic", sym "none")
+            end in
+          let st' := match request_class 0 r with QErrZip => SL [] | _ => st end in
+          let src' := match request_class 0 r with QErrZip => sym "none" | _ => src end in
+          SL [SL [cls; dt; st'; fsx; ran; src'];
+              match second_request 0 r with
+              | Some c => SL [sym "hit"; sym "none"; enc_st 0%Z; SL [SL [SN 0; enc_content c]]; sbool false; src]
+              | None => SL []
+              end]
+      | o => o
+      end
+  | _ => err "bad request case"
+  end.
+
 (* ---- leg args ---- *)
 Definition dec_lang (x : sx) : option language :=
   if is_sym "C" x then Some LC else if is_sym "Cxx" x then Some LCxx
@@ -175,6 +213,8 @@ Definition dispatch (leg : list N) (x : sx) : sx :=
   else if bytes_eqb leg (bs "status_orig") then run_status false x
   else if bytes_eqb leg (bs "fallback") then run_fallback true x
   else if bytes_eqb leg (bs "fallback_orig") then run_fallback false x
+  else if bytes_eqb leg (bs "request") then run_request true x
+  else if bytes_eqb leg (bs "request_orig") then run_request false x
   else if bytes_eqb leg (bs "args") then run_args true x
   else if bytes_eqb leg (bs "args_orig") then run_args false x
   else err "unknown leg".
